@@ -1,6 +1,709 @@
-/- C13 - property theorems (stub: not built yet) -/
+/-
+C13 - Trust stores load only valid certificates from real files of the named store.
+Property theorems only; the model is in `Model/C13.lean`.
+
+Statement, sentence by sentence, and where it is covered:
+* "succeeds only for a known store type and a plain file-name store name, only if the store is a
+  real directory (not a symlink) whose every entry is a regular file (no sub-directories, no
+  symlinks) holding one or more parseable certificates that are CA or self-signed - and, for tsa
+  stores, self-signed roots": clause 1 of `Holds` (`o.ok == loadable i`), theorems `load_ok_iff`,
+  `isValidFileName_iff`, `valid_name_is_one_path_element`.
+* "the named store": the directory addressed is truststore/x509/<type>/<name> and nothing else -
+  the `storePath` clause, theorem `store_path_exact`.
+* "It then returns exactly the certificates of those files and nothing from anywhere else":
+  clauses 2 and 3, theorems `load_exact`, `load_exact_perm`, `nothing_from_elsewhere`.
+* "in every other situation, including an empty store, it fails as a whole rather than
+  returning a partial set": clauses 1 and 4, theorems `no_partial`, `empty_store_fails`.
+Out of scope (not in the property's quantifier): entries that are neither regular files,
+directories nor symlinks (fifos, sockets, devices), unreadable files, I/O errors.
+-/
 import NotationModel.Model.C13
 
+set_option linter.unusedSimpArgs false
+set_option linter.unusedVariables false
+
 namespace NotationModel.C13
+
+/-! ### the extracted facts are the ones the model was written for -/
+
+/-- the regular expression in `file.IsValidFileName` is the text `matchesFileNameRegex` implements -/
+theorem regex_pinned : Facts.c13FileNameRegex = "^[a-zA-Z0-9_.-]+$" := by decide
+
+/-- `file.IsValidFileName` rejects "." and ".." before the regular expression -/
+theorem rejected_pinned : rejectedNames = [['.'], ['.', '.']] := by decide
+
+/-- `truststore.Types` are the three store types the property knows -/
+theorem types_pinned : Facts.c13StoreTypes = specTypes := by decide
+
+theorem type_check_is_membership : Facts.c13TypeCheckIsMembership = true := by decide
+
+/-- the root requirement is keyed on the tsa type, and only on it -/
+theorem root_pinned : Facts.c13RootCheckedTypes = ["tsa"] := by decide
+
+/-- both argument checks precede the first file-system call (in whatever order) -/
+theorem checks_before_file_system :
+    "isValidStoreType" ∈ Facts.c13ChecksBeforeFileSystem ∧
+    "file.IsValidFileName" ∈ Facts.c13ChecksBeforeFileSystem := by decide
+
+/-- the store path is `truststore/x509/<type>/<name>` -/
+theorem store_dir_prefix_pinned : Facts.c13StoreDirPrefix = ["truststore", "x509"] := by decide
+
+/-! ### the file-name recogniser -/
+
+theorem classChar_eq_plainChar (c : Char) : classChar c = plainChar c := by
+  have h1 : 'a'.val.toNat = 97 := by decide
+  have h2 : 'z'.val.toNat = 122 := by decide
+  have h3 : 'A'.val.toNat = 65 := by decide
+  have h4 : 'Z'.val.toNat = 90 := by decide
+  have h5 : '0'.val.toNat = 48 := by decide
+  have h6 : '9'.val.toNat = 57 := by decide
+  rw [Bool.eq_iff_iff]
+  simp only [classChar, plainChar, inRange, Char.isAlphanum, Char.isAlpha, Char.isUpper, Char.isLower, Char.isDigit,
+    Char.toNat, ge_iff_le, UInt32.le_iff_toNat_le, Bool.or_eq_true, Bool.and_eq_true, decide_eq_true_eq,
+    h1, h2, h3, h4, h5, h6]
+  generalize c.val.toNat = n
+  generalize ((c == '_') = true) = p1
+  generalize ((c == '.') = true) = p2
+  generalize ((c == '-') = true) = p3
+  by_cases p1 <;> by_cases p2 <;> by_cases p3 <;> simp [*] <;> omega
+
+/-- the character class of the file-name check, readably -/
+def FileNameChar (c : Char) : Prop :=
+  ('a' ≤ c ∧ c ≤ 'z') ∨ ('A' ≤ c ∧ c ≤ 'Z') ∨ ('0' ≤ c ∧ c ≤ '9') ∨ c = '_' ∨ c = '.' ∨ c = '-'
+
+theorem classChar_iff (c : Char) : classChar c = true ↔ FileNameChar c := by
+  simp only [classChar, FileNameChar, inRange, Char.toNat, Char.le_def, UInt32.le_iff_toNat_le,
+    Bool.or_eq_true, Bool.and_eq_true, decide_eq_true_eq, beq_iff_eq, or_assoc]
+
+theorem mem_rejected (n : Text) : rejectedNames.contains n = (n == ['.'] || n == ['.', '.']) := by
+  rw [rejected_pinned]
+  by_cases h1 : n = ['.'] <;> by_cases h2 : n = ['.', '.'] <;> simp [List.contains_cons, h1, h2]
+
+/-- **C13, name recogniser**: `file.IsValidFileName` (as modelled) accepts exactly the non-empty
+texts over `[a-zA-Z0-9_.-]` other than "." and "..". Strings of any length. -/
+theorem isValidFileName_iff (n : Text) :
+    isValidFileName n = true ↔
+      n ≠ [] ∧ (∀ c ∈ n, FileNameChar c) ∧ n ≠ ['.'] ∧ n ≠ ['.', '.'] := by
+  simp only [isValidFileName, mem_rejected, matchesFileNameRegex]
+  by_cases h1 : n = ['.']
+  · subst h1; simp
+  · by_cases h2 : n = ['.', '.']
+    · subst h2; simp
+    · simp [h1, h2, List.all_eq_true, classChar_iff, List.isEmpty_iff]
+
+/-- the model of the Go check and the specification's "plain file name" coincide -/
+theorem isValidFileName_eq_plainName (n : Text) : isValidFileName n = plainName n := by
+  simp only [isValidFileName, mem_rejected, matchesFileNameRegex, plainName]
+  have hc : n.all classChar = n.all plainChar := by
+    congr 1; funext c; exact classChar_eq_plainChar c
+  rw [hc]
+  by_cases h1 : n = ['.']
+  · subst h1; decide
+  · by_cases h2 : n = ['.', '.']
+    · subst h2; decide
+    · have e1 : (n == ['.']) = false := by simp [h1]
+      have e2 : (n == ['.', '.']) = false := by simp [h2]
+      have e3 : (n != ['.']) = true := by simp [h1]
+      have e4 : (n != ['.', '.']) = true := by simp [h2]
+      rw [e1, e2, e3, e4]
+      cases n <;> simp
+
+/-- **C13, a valid store name is one path element**: it contains no path separator (of either
+flavour) and no NUL, and is neither empty nor a dot-only directory reference; so joining it to
+`<root>/truststore/x509/<type>` designates a direct child of exactly that directory. -/
+theorem valid_name_is_one_path_element (n : Text) (h : isValidFileName n = true) :
+    '/' ∉ n ∧ '\\' ∉ n ∧ (Char.ofNat 0) ∉ n ∧ n ≠ [] ∧ n ≠ ['.'] ∧ n ≠ ['.', '.'] := by
+  obtain ⟨h0, hall, h1, h2⟩ := (isValidFileName_iff n).1 h
+  refine ⟨?_, ?_, ?_, h0, h1, h2⟩
+  · intro hm; have := (classChar_iff _).2 (hall _ hm); revert this; decide
+  · intro hm; have := (classChar_iff _).2 (hall _ hm); revert this; decide
+  · intro hm; have := (classChar_iff _).2 (hall _ hm); revert this; decide
+
+/-! ### the store path -/
+
+theorem splitSlash_no_slash : ∀ n : Text, '/' ∉ n → splitSlash n = [n] := by
+  intro n
+  induction n with
+  | nil => intro _; rfl
+  | cons c cs ih =>
+    intro h
+    have hc : (c == '/') = false := by
+      have : c ≠ '/' := fun e => h (by simp [e])
+      simp [this]
+    have hcs : '/' ∉ cs := fun e => h (List.mem_cons_of_mem _ e)
+    simp [splitSlash, hc, ih hcs]
+
+/-- joining one more item that is a valid file name appends exactly that item as the last
+component: nothing before it is dropped, merged or popped -/
+theorem joinComponents_snoc_valid (items : List Text) (n : Text) (hn : isValidFileName n = true) :
+    joinComponents (items ++ [n]) = joinComponents items ++ [n] := by
+  obtain ⟨hs, _, _, h0, h1, h2⟩ := valid_name_is_one_path_element n hn
+  have e0 : (n == []) = false := by simp [h0]
+  have e1 : (n == ['.']) = false := by simp [h1]
+  have e2 : (n == ['.', '.']) = false := by simp [h2]
+  simp [joinComponents, List.flatMap_append, splitSlash_no_slash n hs, List.foldl_append, cleanStep, e0, e1, e2]
+
+/-- **C13, the directory addressed**: for a known type and a valid store name
+`dir.X509TrustStoreDir(type, name)` (as modelled: `path.Join` with `path.Clean`) has exactly the
+four components truststore / x509 / type / name, i.e. it is the text
+"truststore/x509/<type>/<name>" - the named store of that type and nothing else. -/
+theorem store_path_exact (t : String) (n : Text) (ht : knownType t = true) (hn : isValidFileName n = true) :
+    joinComponents (storePrefix ++ [t.toList, n]) =
+      ["truststore".toList, "x509".toList, t.toList, n] ∧
+    storeDir t n = "truststore/x509/".toList ++ t.toList ++ ['/'] ++ n := by
+  have hp : storePrefix = ["truststore".toList, "x509".toList] := by decide
+  have hj : joinComponents (storePrefix ++ [t.toList, n]) =
+      ["truststore".toList, "x509".toList, t.toList, n] := by
+    have : storePrefix ++ [t.toList, n] = (storePrefix ++ [t.toList]) ++ [n] := by simp
+    rw [this, joinComponents_snoc_valid _ _ hn, hp]
+    have ht' : t ∈ ["ca", "signingAuthority", "tsa"] := by
+      have := ht
+      rw [knownType, types_pinned] at this
+      simpa [specTypes] using this
+    have known : ∀ t ∈ ["ca", "signingAuthority", "tsa"],
+        joinComponents (["truststore".toList, "x509".toList] ++ [String.toList t]) =
+          ["truststore".toList, "x509".toList, String.toList t] := by decide
+    rw [known t ht']
+    rfl
+  refine ⟨hj, ?_⟩
+  unfold storeDir
+  rw [hj]
+  simp [renderPath, List.intercalate, List.intersperse, List.flatten]
+
+/-! ### directory order -/
+
+theorem all_insertEntry (p : Entry → Bool) (e : Entry) : ∀ l : List Entry,
+    (insertEntry e l).all p = (p e && l.all p) := by
+  intro l
+  induction l with
+  | nil => simp [insertEntry]
+  | cons x xs ih =>
+    simp only [insertEntry]
+    split
+    · simp
+    · simp only [List.all_cons, ih]
+      cases p e <;> cases p x <;> simp
+
+theorem all_sortEntries (p : Entry → Bool) : ∀ l : List Entry, (sortEntries l).all p = l.all p := by
+  intro l
+  induction l with
+  | nil => rfl
+  | cons e es ih => simp [sortEntries, all_insertEntry, ih]
+
+theorem insertEntry_perm (e : Entry) : ∀ l : List Entry, (insertEntry e l).Perm (e :: l) := by
+  intro l
+  induction l with
+  | nil => exact List.Perm.refl _
+  | cons x xs ih =>
+    simp only [insertEntry]
+    split
+    · exact List.Perm.refl _
+    · exact (List.Perm.cons x ih).trans (List.Perm.swap e x xs)
+
+/-- the directory listing is a rearrangement of the entries: nothing added, nothing lost -/
+theorem sortEntries_perm : ∀ l : List Entry, (sortEntries l).Perm l := by
+  intro l
+  induction l with
+  | nil => exact List.Perm.refl _
+  | cons e es ih => exact (insertEntry_perm e _).trans (List.Perm.cons e ih)
+
+theorem sortEntries_eq_nil (l : List Entry) : sortEntries l = [] ↔ l = [] := by
+  constructor
+  · intro h
+    have := sortEntries_perm l
+    rw [h] at this
+    exact List.Perm.eq_nil this.symm
+  · intro h; subst h; rfl
+
+theorem nameLt_irrefl : ∀ a : Text, nameLt a a = false := by
+  intro a
+  induction a with
+  | nil => rfl
+  | cons x xs ih => simp [nameLt, ih]
+
+theorem nameLt_asymm : ∀ a b : Text, nameLt a b = true → nameLt b a = false := by
+  intro a
+  induction a with
+  | nil => intro b; cases b <;> simp [nameLt]
+  | cons x xs ih =>
+    intro b
+    cases b with
+    | nil => simp [nameLt]
+    | cons y ys =>
+      simp only [nameLt]
+      by_cases h1 : x.toNat < y.toNat
+      · have : ¬ y.toNat < x.toNat := by omega
+        simp [h1, this]
+      · by_cases h2 : y.toNat < x.toNat
+        · simp [h1, h2]
+        · simp only [h1, h2, if_false]; exact ih ys
+
+theorem nameLt_trans : ∀ a b c : Text, nameLt a b = true → nameLt b c = true → nameLt a c = true := by
+  intro a
+  induction a with
+  | nil =>
+    intro b c hab hbc
+    cases c with
+    | nil => cases b <;> simp [nameLt] at hbc
+    | cons z zs => rfl
+  | cons x xs ih =>
+    intro b c hab hbc
+    cases b with
+    | nil => simp [nameLt] at hab
+    | cons y ys =>
+      cases c with
+      | nil => simp [nameLt] at hbc
+      | cons z zs =>
+        simp only [nameLt] at hab hbc ⊢
+        by_cases hxy : x.toNat < y.toNat
+        · by_cases hyz : y.toNat < z.toNat
+          · have : x.toNat < z.toNat := by omega
+            simp [this]
+          · by_cases hzy : z.toNat < y.toNat
+            · simp [hyz, hzy] at hbc
+            · have : x.toNat < z.toNat := by omega
+              simp [this]
+        · by_cases hyx : y.toNat < x.toNat
+          · simp [hxy, hyx] at hab
+          · simp only [hxy, hyx, if_false] at hab
+            by_cases hyz : y.toNat < z.toNat
+            · have : x.toNat < z.toNat := by omega
+              simp [this]
+            · by_cases hzy : z.toNat < y.toNat
+              · simp [hyz, hzy] at hbc
+              · simp only [hyz, hzy, if_false] at hbc
+                have h1 : ¬ x.toNat < z.toNat := by omega
+                have h2 : ¬ z.toNat < x.toNat := by omega
+                simp only [h1, h2, if_false]
+                exact ih ys zs hab hbc
+
+/-- two names that are not ordered either way are the same name -/
+theorem nameLt_connex : ∀ a b : Text, nameLt a b = false → nameLt b a = false → a = b := by
+  intro a
+  induction a with
+  | nil => intro b; cases b <;> simp [nameLt]
+  | cons x xs ih =>
+    intro b
+    cases b with
+    | nil => simp [nameLt]
+    | cons y ys =>
+      simp only [nameLt]
+      by_cases h1 : x.toNat < y.toNat
+      · simp [h1]
+      · by_cases h2 : y.toNat < x.toNat
+        · simp [h1, h2]
+        · simp only [h1, h2, if_false]
+          intro hab hba
+          have hxy : x = y := by
+            apply Char.ext
+            apply UInt32.toNat_inj.1
+            simp only [Char.toNat] at h1 h2
+            omega
+          rw [hxy, ih ys hab hba]
+
+theorem nameLe_total (a b : Text) : nameLe a b = true ∨ nameLe b a = true := by
+  unfold nameLe
+  cases h : nameLt b a
+  · simp
+  · simp [nameLt_asymm _ _ h]
+
+theorem nameLe_trans (a b c : Text) (hab : nameLe a b = true) (hbc : nameLe b c = true) :
+    nameLe a c = true := by
+  unfold nameLe at *
+  cases hca : nameLt c a
+  · rfl
+  · -- c < a; a ≤ b means ¬ b < a; b ≤ c means ¬ c < b
+    exfalso
+    cases hcb : nameLt c b
+    · -- ¬ c < b and ¬ b < c (from hbc) ⇒ b = c, so b < a: contradiction with hab
+      have hbc' : nameLt c b = false := hcb
+      cases hbc2 : nameLt b c
+      · have := nameLt_connex b c hbc2 hcb
+        subst this
+        simp [hca] at hab
+      · have := nameLt_trans b c a hbc2 hca
+        simp [this] at hab
+    · simp [hcb] at hbc
+
+theorem insertEntry_sorted (e : Entry) : ∀ l : List Entry,
+    l.Pairwise (fun a b => nameLe a.name b.name = true) →
+    (insertEntry e l).Pairwise (fun a b => nameLe a.name b.name = true) := by
+  intro l
+  induction l with
+  | nil => intro _; simp [insertEntry]
+  | cons x xs ih =>
+    intro h
+    simp only [insertEntry]
+    rw [List.pairwise_cons] at h
+    split
+    · rename_i hle
+      rw [List.pairwise_cons]
+      refine ⟨?_, List.pairwise_cons.2 h⟩
+      intro y hy
+      rcases List.mem_cons.1 hy with rfl | hy
+      · exact hle
+      · exact nameLe_trans _ _ _ hle (h.1 y hy)
+    · rename_i hle
+      rw [List.pairwise_cons]
+      refine ⟨?_, ih h.2⟩
+      intro y hy
+      have := (insertEntry_perm e xs).mem_iff.1 hy
+      rcases List.mem_cons.1 this with rfl | hy'
+      · rcases nameLe_total x.name y.name with h' | h'
+        · exact h'
+        · exact absurd h' hle
+      · exact h.1 y hy'
+
+/-- the directory listing is in ascending order of file name (what `os.ReadDir` guarantees) -/
+theorem sortEntries_sorted : ∀ l : List Entry,
+    (sortEntries l).Pairwise (fun a b => nameLe a.name b.name = true) := by
+  intro l
+  induction l with
+  | nil => simp [sortEntries]
+  | cons e es ih => exact insertEntry_sorted e _ ih
+
+/-! ### the loading loop -/
+
+/-- what one iteration of the loop demands of an entry -/
+def entryOk (t : String) (e : Entry) : Bool :=
+  e.kind == .file && e.parseOk && validateCertificates e.certs && (!needsRoot t || e.certs.all isRootCA)
+
+theorem loadEntries_eq (t : String) : ∀ (es : List Entry) (acc : List CertFlags),
+    loadEntries t es acc =
+      if es.all (entryOk t) then some (acc ++ es.flatMap (·.certs)) else none := by
+  intro es
+  induction es with
+  | nil => intro acc; simp [loadEntries]
+  | cons e rest ih =>
+    intro acc
+    simp only [loadEntries, List.all_cons, List.flatMap_cons, ih, entryOk]
+    cases e.kind <;> cases e.parseOk <;> cases validateCertificates e.certs <;>
+      cases needsRoot t <;> cases e.certs.all isRootCA <;> simp [List.append_assoc]
+
+theorem all_and_all {α : Type} (p q : α → Bool) : ∀ l : List α,
+    (l.all p && l.all q) = l.all (fun x => p x && q x) := by
+  intro l
+  induction l with
+  | nil => rfl
+  | cons x xs ih =>
+    simp only [List.all_cons, ← ih]
+    cases p x <;> cases q x <;> simp
+
+theorem needsRoot_eq (t : String) : needsRoot t = (t == "tsa") := by
+  by_cases h : t = "tsa" <;> simp [needsRoot, root_pinned, List.contains_cons, h]
+
+theorem knownType_eq (t : String) : knownType t = specTypes.contains t := by
+  simp [knownType, types_pinned]
+
+/-- the loop's per-entry test is the specification's "regular file with one or more parseable,
+acceptable certificates" -/
+theorem entryOk_eq_entryLoadable (t : String) (e : Entry) : entryOk t e = entryLoadable t e := by
+  simp only [entryOk, entryLoadable, validateCertificates, needsRoot_eq]
+  by_cases ht : t = "tsa"
+  · subst ht
+    have : (e.certs.all (fun c => c.isCA || c.selfSig) && e.certs.all isRootCA) =
+        e.certs.all (acceptable "tsa") := by
+      rw [all_and_all]
+      congr 1; funext c
+      simp only [acceptable, isRootCA]
+      cases c.isCA <;> cases c.selfSig <;> cases c.signOk <;> cases c.subjEqIssuer <;> decide
+    rw [← this]
+    cases (e.kind == EntryKind.file) <;> cases e.parseOk <;> cases e.certs.isEmpty <;>
+      cases e.certs.all (fun c => c.isCA || c.selfSig) <;> cases e.certs.all isRootCA <;> decide
+  · have h1 : (t == "tsa") = false := by simp [ht]
+    have : e.certs.all (fun c => c.isCA || c.selfSig) = e.certs.all (acceptable t) := by
+      congr 1; funext c
+      simp [acceptable, ht]
+    rw [← this, h1]
+    simp [Bool.and_assoc]
+
+theorem flatMap_certs_ne_nil (t : String) : ∀ es : List Entry, es ≠ [] → es.all (entryLoadable t) = true →
+    es.flatMap (·.certs) ≠ [] := by
+  intro es hne hall
+  cases es with
+  | nil => exact absurd rfl hne
+  | cons e rest =>
+    simp only [List.all_cons, Bool.and_eq_true, entryLoadable] at hall
+    have : e.certs ≠ [] := by
+      intro h
+      have := hall.1.1.2
+      simp [h] at this
+    simp [List.flatMap_cons, this]
+
+/-- **C13, the loader in closed form**: `GetCertificates` (as modelled) returns the certificates of
+all files, concatenated in directory order, when the store is loadable, and an error otherwise. -/
+theorem getCertificates_eq (i : Input) :
+    getCertificates i =
+      if loadable i then some ((sortEntries i.entries).flatMap (·.certs)) else none := by
+  unfold getCertificates loadable
+  rw [knownType_eq, isValidFileName_eq_plainName]
+  cases hk : specTypes.contains i.storeType
+  · simp
+  · cases hn : plainName i.name
+    · simp
+    · have hall : (sortEntries i.entries).all (entryOk i.storeType) =
+          i.entries.all (entryLoadable i.storeType) := by
+        rw [all_sortEntries]
+        congr 1; funext e; exact entryOk_eq_entryLoadable _ e
+      cases hd : i.dirKind
+      case dir =>
+        have hdd : (DirKind.dir == DirKind.dir) = true := by decide
+        simp only [Bool.not_true, Bool.false_eq_true, if_false, hdd, Bool.true_and, Bool.and_true]
+        rw [loadEntries_eq, hall]
+        cases he : i.entries.all (entryLoadable i.storeType)
+        · simp
+        · by_cases hnil : i.entries = []
+          · simp [hnil, sortEntries]
+          · have hs : sortEntries i.entries ≠ [] := fun h => hnil ((sortEntries_eq_nil _).1 h)
+            have hs2 : (sortEntries i.entries).all (entryLoadable i.storeType) = true := by
+              rw [all_sortEntries]; exact he
+            have := flatMap_certs_ne_nil i.storeType _ hs hs2
+            simp [hnil, this, List.isEmpty_iff]
+      all_goals simp
+
+/-! ### property theorems -/
+
+theorem run_load (i : Input) (h : i.op = .load) :
+    run i = if loadable i then { ok := true, certs := expectedIds i, path := [] } else { ok := false, certs := [], path := [] } := by
+  unfold run
+  rw [h]
+  simp only [getCertificates_eq]
+  cases loadable i <;> simp [expectedIds]
+
+theorem run_nameCheck (i : Input) (h : i.op = .nameCheck) :
+    run i = { ok := plainName i.name, certs := [], path := [] } := by
+  unfold run
+  rw [h]
+  simp [isValidFileName_eq_plainName]
+
+theorem expectedIds_subset (i : Input) : ∀ c ∈ expectedIds i, c ∈ storeIds i := by
+  intro c hc
+  simp only [expectedIds, storeIds, List.mem_map, List.mem_flatMap] at hc ⊢
+  obtain ⟨f, ⟨e, he, hf⟩, rfl⟩ := hc
+  exact ⟨f, ⟨e, (sortEntries_perm _).mem_iff.1 he, hf⟩, rfl⟩
+
+/-- **C13, the whole property**: every clause of `Holds` is true of the model's behaviour, for
+every store type, name, directory kind and entry list (no bounds, no well-formedness needed). -/
+theorem model_holds (i : Input) : Holds i (run i) = true := by
+  unfold Holds clauses
+  cases hop : i.op
+  · rw [run_load i hop]
+    cases hl : loadable i
+    · simp [Clauses.holds]
+    · simp only [Clauses.holds_cons, Clauses.holds_nil, if_true, hl]
+      have : (expectedIds i).all (fun c => (storeIds i).contains c) = true := by
+        rw [List.all_eq_true]
+        intro c hc
+        simpa using expectedIds_subset i c hc
+      simp
+      exact expectedIds_subset i
+  · rw [run_nameCheck i hop]
+    simp [Clauses.holds]
+  · simp only [run, hop, Clauses.holds_cons, Clauses.holds_nil, Bool.and_true]
+    cases hk : specTypes.contains i.storeType
+    · simp
+    · cases hn : plainName i.name
+      · simp
+      · have := (store_path_exact i.storeType i.name (by rw [knownType_eq]; exact hk)
+          (by rw [isValidFileName_eq_plainName]; exact hn)).2
+        simp [this]
+
+/-- **C13, load_ok_iff**: loading succeeds exactly when the type is one of the three known types,
+the name is a valid file name, the store path is a real directory, the store is not empty and
+every entry is a regular file with at least one parseable certificate, each of them a CA or
+self-signed certificate and, in a tsa store, a self-signed root (own key may sign certificates,
+signature verifies under it, issuer = subject). -/
+theorem load_ok_iff (i : Input) (h : i.op = .load) :
+    (run i).ok = true ↔
+      i.storeType ∈ ["ca", "signingAuthority", "tsa"] ∧ isValidFileName i.name = true ∧
+      i.dirKind = .dir ∧ i.entries ≠ [] ∧
+      ∀ e ∈ i.entries, e.kind = .file ∧ e.parseOk = true ∧ e.certs ≠ [] ∧
+        ∀ c ∈ e.certs, (c.isCA = true ∨ c.selfSig = true) ∧
+          (i.storeType = "tsa" → c.selfSig = true ∧ c.signOk = true ∧ c.subjEqIssuer = true) := by
+  rw [run_load i h, isValidFileName_eq_plainName]
+  have : (if loadable i then ({ ok := true, certs := expectedIds i, path := [] } : Obs) else { ok := false, certs := [], path := [] }).ok
+      = loadable i := by cases loadable i <;> rfl
+  rw [this]
+  simp only [loadable, specTypes, entryLoadable, acceptable, Bool.and_eq_true, List.all_eq_true,
+    List.contains_eq_mem, decide_eq_true_eq, beq_iff_eq, Bool.or_eq_true, Bool.not_eq_true',
+    List.isEmpty_eq_false_iff, bne_iff_ne, ne_eq, Bool.not_eq_eq_eq_not, Bool.not_true, Bool.not_eq_true]
+  constructor
+  · rintro ⟨⟨⟨⟨h1, h2⟩, h3⟩, h4⟩, h5⟩
+    refine ⟨h1, h2, h3, h5, ?_⟩
+    intro e he
+    obtain ⟨⟨⟨k1, k2⟩, k3⟩, k4⟩ := h4 e he
+    refine ⟨k1, k2, k3, ?_⟩
+    intro c hc
+    obtain ⟨a1, a2⟩ := k4 c hc
+    refine ⟨a1, ?_⟩
+    intro ht
+    rcases a2 with a2 | a2
+    · exact absurd ht a2
+    · exact ⟨a2.1.1, a2.1.2, a2.2⟩
+  · rintro ⟨h1, h2, h3, h5, h4⟩
+    refine ⟨⟨⟨⟨h1, h2⟩, h3⟩, ?_⟩, h5⟩
+    intro e he
+    obtain ⟨k1, k2, k3, k4⟩ := h4 e he
+    refine ⟨⟨⟨k1, k2⟩, k3⟩, ?_⟩
+    intro c hc
+    obtain ⟨a1, a2⟩ := k4 c hc
+    refine ⟨a1, ?_⟩
+    by_cases ht : i.storeType = "tsa"
+    · obtain ⟨b1, b2, b3⟩ := a2 ht
+      exact Or.inr ⟨⟨b1, b2⟩, b3⟩
+    · exact Or.inl ht
+
+/-- **C13, load_exact**: on success the result is the concatenation, in ascending file-name order
+(`sortEntries_sorted`, `sortEntries_perm`), of exactly the certificates of the store's files. -/
+theorem load_exact (i : Input) (h : i.op = .load) (hok : (run i).ok = true) :
+    (run i).certs = ((sortEntries i.entries).flatMap (·.certs)).map (·.id) := by
+  rw [run_load i h] at hok ⊢
+  cases hl : loadable i
+  · simp [hl] at hok
+  · simp [expectedIds]
+
+/-- as a multiset the result is the certificates of all the store's files: none missing, none
+extra, multiplicities kept -/
+theorem load_exact_perm (i : Input) (h : i.op = .load) (hok : (run i).ok = true) :
+    ((run i).certs).Perm ((i.entries.flatMap (·.certs)).map (·.id)) := by
+  rw [load_exact i h hok]
+  exact ((sortEntries_perm i.entries).flatMap_right _).map _
+
+/-- whatever is returned, in any situation, is a certificate of one of the store's files -/
+theorem nothing_from_elsewhere (i : Input) (h : i.op = .load) :
+    ∀ c ∈ (run i).certs, ∃ e ∈ i.entries, ∃ f ∈ e.certs, f.id = c := by
+  intro c hc
+  rw [run_load i h] at hc
+  cases hl : loadable i
+  · simp [hl] at hc
+  · simp only [hl, if_true] at hc
+    have := expectedIds_subset i c hc
+    simp only [storeIds, List.mem_map, List.mem_flatMap] at this
+    obtain ⟨f, ⟨e, he, hf⟩, rfl⟩ := this
+    exact ⟨e, he, f, hf, rfl⟩
+
+/-- **C13, no_partial**: a failing load returns no certificate at all -/
+theorem no_partial (i : Input) (hok : (run i).ok = false) : (run i).certs = [] := by
+  cases hop : i.op
+  · rw [run_load i hop] at hok ⊢
+    cases hl : loadable i
+    · rfl
+    · simp [hl] at hok
+  · rw [run_nameCheck i hop]
+  · simp [run, hop]
+
+/-- an empty store is an error -/
+theorem empty_store_fails (i : Input) (h : i.op = .load) (he : i.entries = []) : (run i).ok = false := by
+  rw [run_load i h]
+  simp [loadable, he]
+
+/-- one bad entry anywhere - a sub-directory, a symlink, an unparsable or empty file, a file with
+one unacceptable certificate - fails the whole load, whatever else the store holds -/
+theorem one_bad_entry_fails (i : Input) (h : i.op = .load) (e : Entry) (he : e ∈ i.entries)
+    (hbad : entryLoadable i.storeType e = false) : (run i).ok = false ∧ (run i).certs = [] := by
+  have hl : loadable i = false := by
+    unfold loadable
+    have : i.entries.all (entryLoadable i.storeType) = false := by
+      apply Bool.eq_false_iff.2
+      intro hall
+      rw [List.all_eq_true] at hall
+      rw [hall e he] at hbad
+      exact Bool.noConfusion hbad
+    simp [this]
+  rw [run_load i h, hl]
+  simp
+
+/-- a list with pairwise distinct names has only one arrangement in ascending name order -/
+theorem sort_unique : ∀ (l₁ l₂ : List Entry), l₁.Perm l₂ →
+    l₁.Pairwise (fun a b => nameLe a.name b.name = true) →
+    l₂.Pairwise (fun a b => nameLe a.name b.name = true) →
+    l₁.Pairwise (fun a b => a.name ≠ b.name) → l₁ = l₂ := by
+  intro l₁
+  induction l₁ with
+  | nil => intro l₂ hp _ _ _; exact (List.Perm.eq_nil hp.symm).symm
+  | cons x xs ih =>
+    intro l₂ hp hs1 hs2 hd
+    cases l₂ with
+    | nil => exact absurd (List.Perm.eq_nil hp) (by simp)
+    | cons y ys =>
+      rw [List.pairwise_cons] at hs1 hs2 hd
+      have hxy : x = y := by
+        have hx : x ∈ y :: ys := hp.mem_iff.1 (List.mem_cons_self)
+        have hy : y ∈ x :: xs := hp.mem_iff.2 (List.mem_cons_self)
+        rcases List.mem_cons.1 hx with hx | hx
+        · exact hx
+        · rcases List.mem_cons.1 hy with hy | hy
+          · exact hy.symm
+          · -- x ≤ y (y in xs) and y ≤ x (x in ys): same name, contradiction with distinctness
+            have h1 := hs1.1 y hy
+            have h2 := hs2.1 x hx
+            unfold nameLe at h1 h2
+            have := nameLt_connex x.name y.name (by simpa using h2) (by simpa using h1)
+            exact absurd this (hd.1 y hy)
+      subst hxy
+      rw [ih ys (List.Perm.cons_inv hp) hs1.2 hs2.2 hd.2]
+
+/-- **C13, creation order is irrelevant**: two stores holding the same entries (in any order of
+creation), with pairwise distinct file names, load identically. -/
+theorem creation_order_irrelevant (i₁ i₂ : Input) (hop : i₁.op = i₂.op) (ht : i₁.storeType = i₂.storeType)
+    (hn : i₁.name = i₂.name) (hk : i₁.dirKind = i₂.dirKind) (hp : i₁.entries.Perm i₂.entries)
+    (hd : i₁.entries.Pairwise (fun a b => a.name ≠ b.name)) : run i₁ = run i₂ := by
+  have hs : sortEntries i₁.entries = sortEntries i₂.entries := by
+    apply sort_unique _ _ (((sortEntries_perm _).trans hp).trans (sortEntries_perm _).symm)
+      (sortEntries_sorted _) (sortEntries_sorted _)
+    exact (sortEntries_perm i₁.entries).symm.pairwise hd (fun h => fun h' => h h'.symm)
+  unfold run getCertificates
+  rw [hop, ht, hn, hk, hs]
+
+/-! ### non-vacuity -/
+
+def rootCA (id : Nat) : CertFlags := { id := id, isCA := true, selfSig := true, signOk := true, subjEqIssuer := true }
+def interCA (id : Nat) : CertFlags := { id := id, isCA := true, selfSig := false, signOk := true, subjEqIssuer := false }
+def leaf (id : Nat) : CertFlags := { id := id, isCA := false, selfSig := false, signOk := false, subjEqIssuer := false }
+def pemFile (n : String) (cs : List CertFlags) : Entry :=
+  { name := n.toList, kind := .file, parseOk := true, certs := cs, enc := "pem" }
+def store (t : String) (n : String) (es : List Entry) : Input :=
+  { op := .load, storeType := t, name := n.toList, dirKind := .dir, entries := es, decoys := false }
+
+/-- a store with two files created in reverse name order loads in name order -/
+example : run (store "ca" "acme.roots" [pemFile "b.pem" [interCA 2, rootCA 3], pemFile "a.pem" [rootCA 1]]) =
+    { ok := true, certs := [1, 2, 3], path := [] } := by decide
+
+/-- the same files do not load as a tsa store (certificate 2 is not a self-signed root) -/
+example : run (store "tsa" "acme.roots" [pemFile "b.pem" [interCA 2, rootCA 3], pemFile "a.pem" [rootCA 1]]) =
+    { ok := false, certs := [], path := [] } := by decide
+
+/-- one leaf certificate among good ones fails the whole store -/
+example : run (store "ca" "s" [pemFile "a.pem" [rootCA 1], pemFile "b.pem" [rootCA 2, leaf 3]]) =
+    { ok := false, certs := [], path := [] } := by decide
+
+/-- "." and ".." are not store names; "..." is -/
+example : (run (store "ca" "." [pemFile "a.pem" [rootCA 1]])).ok = false := by decide
+example : (run (store "ca" ".." [pemFile "a.pem" [rootCA 1]])).ok = false := by decide
+example : (run (store "ca" "../x" [pemFile "a.pem" [rootCA 1]])).ok = false := by decide
+example : (run (store "ca" "..." [pemFile "a.pem" [rootCA 1]])).ok = true := by decide
+
+/-- `Holds` is false of wrong observations: a partial result with an error, a success that
+drops a certificate, a success in the wrong order, a success on a symlinked store -/
+example : Holds (store "ca" "s" [pemFile "a.pem" [rootCA 1], pemFile "b.pem" [leaf 3]])
+    { ok := false, certs := [1], path := [] } = false := by decide
+example : Holds (store "ca" "s" [pemFile "a.pem" [rootCA 1], pemFile "b.pem" [rootCA 2]])
+    { ok := true, certs := [1], path := [] } = false := by decide
+example : Holds (store "ca" "s" [pemFile "a.pem" [rootCA 1], pemFile "b.pem" [rootCA 2]])
+    { ok := true, certs := [2, 1], path := [] } = false := by decide
+example : Holds { store "ca" "s" [pemFile "a.pem" [rootCA 1]] with dirKind := .symlinkToDir }
+    { ok := true, certs := [1], path := [] } = false := by decide
+example : Holds (store "ca" "s" [pemFile "a.pem" [rootCA 1], pemFile "b.pem" [rootCA 2]])
+    { ok := true, certs := [1, 2], path := [] } = true := by decide
+
+
+/-- the store path of a proper name, and what the rejected names would have addressed: the type
+directory itself, its parent, a store of another type -/
+example : storeDir "ca" "acme.roots".toList = "truststore/x509/ca/acme.roots".toList := by decide
+example : storeDir "ca" ".".toList = "truststore/x509/ca".toList := by decide
+example : storeDir "ca" "..".toList = "truststore/x509".toList := by decide
+example : storeDir "ca" "../tsa/x".toList = "truststore/x509/tsa/x".toList := by decide
+example : Holds { store "ca" "s" [] with op := .storePath }
+    { ok := true, certs := [], path := "truststore/x509/s/ca".toList } = false := by decide
 
 end NotationModel.C13
